@@ -153,6 +153,12 @@ type App struct {
 	OwnedExtra                                                 map[string]bool
 	NotOwned                                                   map[string]bool
 	DeliverErr                                                 bool
+	// RealTransport: NewTransport returns the library's bundled HttpSigTransport over a fake HTTP
+	// client (realtransport.go); InboxOutcome says how a POST to an inbox URL ends (0 = 202,
+	// > 0 = that status, < 0 = client error).
+	RealTransport bool
+	InboxOutcome  map[string]int
+	RTClient      *RTClient
 	// CBKeep, if set, names the single activity type whose application hook (wrapped or 'other')
 	// is configured; all other hooks are nil.
 	CBKeep string
@@ -221,6 +227,7 @@ func (a *App) Clone() *App {
 	b.Reqs = nil
 	b.X, b.S = nil, nil
 	b.syncActor, b.syncMu, b.syncSt = nil, nil, nil
+	b.RTClient = nil
 	b.actors = nil // a clone is a different application: its actors are built over the clone
 	b.faultN = 0
 	return &b
